@@ -7,6 +7,9 @@ CONSTANTS
   ModeOf <- GModeOf
   RulesKey = "item"
   IdsIdentifyContent = FALSE
+  IncOf <- ZeroInc
+  KeepHigherIncarnation = FALSE
+  StateEarly = FALSE
   InitScenarios = {"fresh"}
   InitDocs = {}
   MaxReconf = 1000000
